@@ -99,6 +99,24 @@ func exploreTx(r *core.Run) func() {
 	return wg.Wait
 }
 
+// exploreResize runs the TxFile.tla configurations with max-size changes on open (ResizeHdr,
+// ResizeSync, forced release commit, release of free pages beyond the limit in every commit).
+func exploreResize(r *core.Run) func() {
+	cfgs := []string{"MC_TxFile_resize_q.cfg"}
+	if r.Thorough() {
+		cfgs = []string{"MC_TxFile_resize.cfg", "MC_TxFile_resize2.cfg"}
+	}
+	var wg sync.WaitGroup
+	wg.Add(1)
+	go func() {
+		defer wg.Done()
+		for _, c := range cfgs {
+			r.Explore(core.TLCOpts{Module: "MC_TxFile", Config: c, Timeout: 40 * time.Minute, HeapMB: 12000, Workers: 8})
+		}
+	}()
+	return wg.Wait
+}
+
 // baseCfgs enumerates the configuration dimensions of the store.
 func baseCfgs(r *core.Run, name string, n int, f func(i int, c *HistCfg)) []HistCfg {
 	var out []HistCfg
